@@ -171,3 +171,42 @@ Proof.
     + constructor; [|exact Ha]. intros Hin. apply H2. apply in_app_iff. left. exact Hin.
     + intros x [<-|Hx]; [|apply D; exact Hx]. intros Hin. apply H2. apply in_app_iff. right. exact Hin.
 Qed.
+
+(* ------------------------------------------------------------------ type lists, by qualified name *)
+Definition tmem (q : str) (l : list atype) : bool := existsb (fun u => str_eqb (ty_qname u) q) l.
+Definition tsub (l1 l2 : list atype) : Prop := forall q, tmem q l1 = true -> tmem q l2 = true.
+
+Lemma tsub_refl l : tsub l l.
+Proof. intros q H. exact H. Qed.
+
+Lemma tsub_trans a b c : tsub a b -> tsub b c -> tsub a c.
+Proof. intros H1 H2 q H. apply H2, H1, H. Qed.
+
+Lemma tmem_app q l1 l2 : tmem q (l1 ++ l2) = tmem q l1 || tmem q l2.
+Proof. unfold tmem. apply existsb_app. Qed.
+
+Lemma str_eqb_sym a b : str_eqb a b = str_eqb b a.
+Proof. destruct (str_eqb_spec a b), (str_eqb_spec b a); congruence. Qed.
+
+Lemma tmem_cons q t l : tmem q (t :: l) = str_eqb (ty_qname t) q || tmem q l.
+Proof. reflexivity. Qed.
+
+Lemma tmem_unique_aux q : forall l seen,
+  tmem q (unique_types_aux seen l) = tmem q l && negb (existsb (str_eqb q) seen).
+Proof.
+  induction l as [|t r IH]; intros seen; cbn [unique_types_aux]; [reflexivity|].
+  rewrite tmem_cons.
+  destruct (existsb (str_eqb (ty_qname t)) seen) eqn:E.
+  - rewrite IH. destruct (str_eqb (ty_qname t) q) eqn:Q; [|reflexivity]. apply str_eqb_eq in Q. subst q.
+    rewrite E. cbn. rewrite andb_false_r. reflexivity.
+  - rewrite tmem_cons, IH. cbn [existsb]. destruct (str_eqb (ty_qname t) q) eqn:Q; cbn [orb].
+    + apply str_eqb_eq in Q. subst q. rewrite E. reflexivity.
+    + rewrite (str_eqb_sym q (ty_qname t)), Q. reflexivity.
+Qed.
+
+Lemma tmem_unique q l : tmem q (unique_types l) = tmem q l.
+Proof. unfold unique_types. rewrite tmem_unique_aux. cbn. apply andb_true_r. Qed.
+
+Lemma tmem_map_forward q l :
+  tmem q (map (fun t => mk_atype (ty_qname t) (ty_native t) false) l) = tmem q l.
+Proof. unfold tmem. induction l as [|t r IH]; cbn; [reflexivity|]. rewrite IH. reflexivity. Qed.
